@@ -95,6 +95,26 @@ def tie_case(ctx, rng, k, drv):
             ctx.violation("%s (%s): %s of line %d tie point %d is %.7f, the file's word gives %.7f" % (
                 fmt, kind, name, i, j, got[i, j], want[i, j]), payload, cls="tie-value")
             break
+    # the coordinates of a reader do not change when its pass has been written to the legacy files in between
+    if not flagged.any() and n >= 5 and rng.random() < 0.5:
+        import os
+        import shutil
+        import tempfile
+        out = tempfile.mkdtemp(prefix="c06save", dir=ctx.scratch)
+        try:
+            with warnings.catch_warnings():
+                warnings.simplefilter("ignore")
+                r.save(0, 0, output_file_prefix="V", output_dir=out)
+                lons2, lats2 = r.get_lonlat()
+            if not (np.array_equal(np.asarray(lons2), lons, equal_nan=True) and np.array_equal(np.asarray(lats2), lats, equal_nan=True)):
+                ctx.violation("%s: get_lonlat() after save(0, 0) on the same reader no longer returns the file's tie points "
+                              "(first value %r, before %r)" % (fmt, float(np.asarray(lons2).ravel()[0]), float(lons.ravel()[0])),
+                              payload, cls="lonlat-after-save")
+            ctx.branches["tie/after-save"] += 1
+        except (ValueError, IndexError) as e:      # calibration of an arbitrary short pass may fail: not this property
+            ctx.branches["tie/save-not-possible:%s" % type(e).__name__] += 1
+        finally:
+            shutil.rmtree(out, ignore_errors=True)
     for i in range(n):
         drv.append(("c06 %d %d %s %s" % (1 if fam == "pod" else 0, int(flagged[i]), ",".join(map(str, lonw[i])), ",".join(map(str, latw[i]))),
                     (lons[i], lats[i]), payload))
